@@ -2,13 +2,13 @@ package rules
 
 import (
 	"fmt"
-	"os"
-	"sync"
 	"go/constant"
 	"go/token"
 	"go/types"
+	"os"
 	"sort"
 	"strings"
+	"sync"
 
 	"golang.org/x/tools/go/ssa"
 
@@ -26,39 +26,39 @@ type Engine struct {
 	prog *core.Program
 	cfg  EngCfg
 
-	obs      map[string]*engOb
-	obOrder  []string
-	finfo    map[*ssa.Function]*fnInfo
-	reach    map[*ssa.Function]bool // functions that (transitively) perform cursor operations
-	tables   map[*ssa.Global]*[256]bool
-	bmaps    map[*ssa.Global]map[int64]int64
-	smaps    map[*ssa.Global][]int64
-	atLike   map[*ssa.Function]int // 0 unknown, 1 exact, 2 case-insensitive, -1 not an at-like function
-	steps    int
-	maxSteps int
-	aborted  string
-	stack    []*ssa.Function
-	entryFn  *ssa.Function
-	onReturn func(st *State, ret []AbsVal, at *ssa.Return)
-	loopsSeen map[string]bool
-	infoBusy  map[*ssa.Function]bool
-	summ      map[*ssa.Function]map[string][]summary
-	usesLCache map[*ssa.Function]bool
+	obs                map[string]*engOb
+	obOrder            []string
+	finfo              map[*ssa.Function]*fnInfo
+	reach              map[*ssa.Function]bool // functions that (transitively) perform cursor operations
+	tables             map[*ssa.Global]*[256]bool
+	bmaps              map[*ssa.Global]map[int64]int64
+	smaps              map[*ssa.Global][]int64
+	atLike             map[*ssa.Function]int // 0 unknown, 1 exact, 2 case-insensitive, -1 not an at-like function
+	steps              int
+	maxSteps           int
+	aborted            string
+	stack              []*ssa.Function
+	entryFn            *ssa.Function
+	onReturn           func(st *State, ret []AbsVal, at *ssa.Return)
+	loopsSeen          map[string]bool
+	infoBusy           map[*ssa.Function]bool
+	summ               map[*ssa.Function]map[string][]summary
+	usesLCache         map[*ssa.Function]bool
 	summHits, summMiss int
-	assume    []string
-	tagEntry  int  // R-TAGSTATE: entry value of inTag (0/1), -1 when not applicable
-	opaqueOK  bool // opaque cursor clients are expected (parser level): havoc without an obligation
+	assume             []string
+	tagEntry           int  // R-TAGSTATE: entry value of inTag (0/1), -1 when not applicable
+	opaqueOK           bool // opaque cursor clients are expected (parser level): havoc without an obligation
 }
 
 // EngCfg configures one analysis.
 type EngCfg struct {
-	Rel        string          // package of the entry point (module relative)
-	Owners     map[string]bool // "pkg.Type" whose methods are analysed inline
-	ErrPath    string          // heap path of the lexer's own error field ("js.Lexer.err")
-	SkipWS     ByteSet         // bytes that Skip() may drop (html/xml); empty set = Skip forbidden
-	AllowSkip  bool
-	NoTile     bool // entry point that is not a token producer: R-TILE/Skip rules do not apply
-	Tag        string // label of the configuration (part of no key; for messages)
+	Rel       string          // package of the entry point (module relative)
+	Owners    map[string]bool // "pkg.Type" whose methods are analysed inline
+	ErrPath   string          // heap path of the lexer's own error field ("js.Lexer.err")
+	SkipWS    ByteSet         // bytes that Skip() may drop (html/xml); empty set = Skip forbidden
+	AllowSkip bool
+	NoTile    bool   // entry point that is not a token producer: R-TILE/Skip rules do not apply
+	Tag       string // label of the configuration (part of no key; for messages)
 }
 
 type engOb struct {
@@ -1174,6 +1174,9 @@ func (e *Engine) store(st *State, in *ssa.Store) {
 	// writes into the input buffer through a lexeme slice: byte knowledge about the token becomes stale
 	if ia, ok := in.Addr.(*ssa.IndexAddr); ok {
 		if b := e.eval(st, ia.X); b.k == vSlice {
+			fn := in.Parent()
+			_, allowed := inPlaceAllowed[fnLabel(fn)+" store"]
+			e.check(st, "R-INPLACE", fnLabel(fn)+" stores into input bytes", in.Pos(), allowed, "a byte of the input buffer is overwritten outside the audited site (XML attribute whitespace normalisation): tokens are no longer faithful slices of the input")
 			e.staleBehind(st)
 		}
 	}
@@ -1181,7 +1184,9 @@ func (e *Engine) store(st *State, in *ssa.Store) {
 
 // staleBehind: bytes behind the cursor may have been rewritten (ToLower, tab->space): keep only non-zero-ness.
 func (e *Engine) staleBehind(st *State) {
-	st.stale++
+	if st.stale < 3 {
+		st.stale++
+	}
 	for k := range st.bytes {
 		if k < 0 {
 			delete(st.bytes, k)
